@@ -246,9 +246,9 @@ def run(ctx):
             if j['verdict'] != 'ok':
                 ctx.findings.append(j)
     from ..signatures import call_compat
-    call_compat(ctx, 'R01.7', ['nbdime.diffing.', 'nbdime.patching', 'nbdime.diff_utils', 'nbdime.diff_format', 'nbdime.nbdiffapp', 'nbdime.nbpatchapp'], 'diffing/patching a valid notebook aborts instead of round-tripping')
+    call_compat(ctx, 'R01.7', ['nbdime.diffing.', 'nbdime.patching', 'nbdime.diff_utils', 'nbdime.diff_format', 'nbdime.nbdiffapp', 'nbdime.nbpatchapp'] if ctx.tier == 'quick' else ['nbdime.'], 'diffing/patching a valid notebook aborts instead of round-tripping')
     from ..names import name_binding
-    name_binding(ctx, 'R01.8', ['nbdime.diffing.', 'nbdime.patching', 'nbdime.diff_utils', 'nbdime.diff_format', 'nbdime.nbdiffapp', 'nbdime.nbpatchapp'])
+    name_binding(ctx, 'R01.8', ['nbdime.diffing.', 'nbdime.patching', 'nbdime.diff_utils', 'nbdime.diff_format', 'nbdime.nbdiffapp', 'nbdime.nbpatchapp'] if ctx.tier == 'quick' else ['nbdime.'])
     from ..opfields import check_op_fields
     check_op_fields(ctx, 'R01.9', ['nbdime.diffing.', 'nbdime.patching', 'nbdime.diff_utils', 'nbdime.diff_format'])
     from ..reflexive import check_reflexive
